@@ -1084,6 +1084,18 @@ class MyPyAstVisitor:
         elif isinstance(unanalyzed_type, mp_types.TupleType):
             return sds_types.TupleType(types=[self.mypy_type_to_abstract_type(item) for item in unanalyzed_type.items])
 
+        # Type aliases are replaced by their target. Mypy also uses them for classes of named tuples and typed dicts.
+        if isinstance(mypy_type, mp_types.TypeAliasType):
+            mypy_type = mp_types.get_proper_type(mypy_type)
+
+        # Classes that inherit from NamedTuple or TypedDict are classes of the package, not tuples or dictionaries
+        if isinstance(mypy_type, mp_types.TupleType) and mypy_type.partial_fallback.type.fullname != "builtins.tuple":
+            class_info = mypy_type.partial_fallback.type
+            return sds_types.NamedType(name=class_info.name, qname=class_info.fullname)
+        elif isinstance(mypy_type, mp_types.TypedDictType) and not mypy_type.is_anonymous():
+            class_info = mypy_type.fallback.type
+            return sds_types.NamedType(name=class_info.name, qname=class_info.fullname)
+
         # Iterable mypy types
         if isinstance(mypy_type, mp_types.TupleType):
             return sds_types.TupleType(types=[self.mypy_type_to_abstract_type(item) for item in mypy_type.items])
